@@ -37,6 +37,7 @@ fn sb(b: bool) -> &'static str {
 // error rendering
 
 fn len_err(e: &LenError) -> String {
+    crate::util::touch(e);
     format!(
         "err(len(req={},len={},src={:?},layer={:?},off={}))",
         e.required_len, e.len, e.len_source, e.layer, e.layer_start_offset
@@ -51,6 +52,7 @@ fn too_big<T: core::fmt::Display + Sized + Clone + core::fmt::Debug + Eq + core:
     )
 }
 fn space_err(e: &err::SliceWriteSpaceError) -> String {
+    crate::util::touch(e);
     format!(
         "err(space(req={},len={},layer={:?},off={}))",
         e.required_len, e.len, e.layer, e.layer_start_offset
@@ -202,7 +204,15 @@ fn mk_eth2(a: &[&str]) -> Option<Ethernet2Header> {
 }
 fn dec_eth2(b: &[u8]) -> Dec<'_> {
     Ethernet2Header::from_slice(b)
-        .map(|(h, r)| (show_eth2(&h), r))
+        .map(|(h, r)| {
+            // the other decoders of the same 14 bytes
+            let mut a = [0u8; 14];
+            a.copy_from_slice(&b[..14]);
+            let hs = Ethernet2HeaderSlice::from_slice(b);
+            let bad = Ethernet2Header::from_bytes(a) != h
+                || hs.as_ref().map(|x| x.to_header() != h || x.slice().as_ptr() != b.as_ptr() || x.slice().len() != 14).unwrap_or(true);
+            (format!("{}{}", show_eth2(&h), if bad { "!decoders-differ" } else { "" }), r)
+        })
         .map_err(|e| len_err(&e))
 }
 
@@ -239,7 +249,11 @@ fn mk_vlan(a: &[&str]) -> Option<Result<SingleVlanHeader, String>> {
 }
 fn dec_vlan(b: &[u8]) -> Dec<'_> {
     SingleVlanHeader::from_slice(b)
-        .map(|(h, r)| (show_vlan(&h), r))
+        .map(|(h, r)| {
+            let hs = SingleVlanHeaderSlice::from_slice(b);
+            let bad = hs.as_ref().map(|x| x.to_header() != h || x.slice().as_ptr() != b.as_ptr() || x.slice().len() != 4).unwrap_or(true);
+            (format!("{}{}", show_vlan(&h), if bad { "!decoders-differ" } else { "" }), r)
+        })
         .map_err(|e| len_err(&e))
 }
 
@@ -297,6 +311,7 @@ fn mk_sll(a: &[&str]) -> Option<Result<LinuxSllHeader, String>> {
     }
 }
 fn sll_slice_err(e: err::linux_sll::HeaderSliceError) -> String {
+    crate::util::touch(&e);
     match e {
         err::linux_sll::HeaderSliceError::Len(l) => len_err(&l),
         err::linux_sll::HeaderSliceError::Content(c) => sll_content(&c),
@@ -472,7 +487,20 @@ fn arp_from(b: &[u8]) -> Result<(ArpPacket, &[u8]), String> {
     }
 }
 fn dec_arp(b: &[u8]) -> Dec<'_> {
-    arp_from(b).map(|(h, r)| (show_arp(&h), r))
+    arp_from(b).map(|(h, r)| {
+        // the hand-written PartialEq / Hash: a copy is equal, a packet with another last address byte is not
+        let d = if h.target_protocol_addr().is_empty() {
+            let mut d = h.clone();
+            d.operation = ArpOperation(h.operation.0 ^ 1);
+            Some(d)
+        } else {
+            let mut t = h.target_protocol_addr().to_vec();
+            let n = t.len();
+            t[n - 1] ^= 1;
+            ArpPacket::new(h.hw_addr_type, h.proto_addr_type, h.operation, h.sender_hw_addr(), h.sender_protocol_addr(), h.target_hw_addr(), &t).ok()
+        };
+        (format!("{}{}", show_arp(&h), if eq_laws_bad(&h, d) { "!accessor-mismatch" } else { "" }), r)
+    })
 }
 
 fn show_arpeth(h: &ArpEthIpv4Packet) -> String {
@@ -602,6 +630,7 @@ fn mk_tcp(a: &[&str]) -> Option<Result<TcpHeader, String>> {
     }
 }
 fn tcp_err(e: err::tcp::HeaderSliceError) -> String {
+    crate::util::touch(&e);
     match e {
         err::tcp::HeaderSliceError::Len(l) => len_err(&l),
         err::tcp::HeaderSliceError::Content(err::tcp::HeaderError::DataOffsetTooSmall {
@@ -614,7 +643,25 @@ fn tcp_err(e: err::tcp::HeaderSliceError) -> String {
 }
 fn dec_tcp(b: &[u8]) -> Dec<'_> {
     TcpHeader::from_slice(b)
-        .map(|(h, r)| (show_tcp(&h), r))
+        .map(|(h, r)| {
+            let mut d = h.clone();
+            if h.options.is_empty() {
+                d.window_size ^= 1;
+            } else {
+                let mut o = h.options.as_slice().to_vec();
+                let n = o.len();
+                o[n - 1] ^= 1;
+                let _ = d.set_options_raw(&o);
+            }
+            let o = &h.options;
+            let bad = eq_laws_bad(&h, Some(d))
+                || eq_laws_bad(o, None)
+                || o.cmp(&o.clone()) != core::cmp::Ordering::Equal
+                || o.partial_cmp(&o.clone()) != Some(core::cmp::Ordering::Equal)
+                || TcpOptions::try_from(o.as_slice()).ok().as_ref() != Some(o)
+                || TcpOptions::try_from_slice(o.as_slice()).ok().as_ref() != Some(o);
+            (format!("{}{}", show_tcp(&h), if bad { "!accessor-mismatch" } else { "" }), r)
+        })
         .map_err(tcp_err)
 }
 
